@@ -75,6 +75,9 @@ theorem dedup_eq : dedupNames = dedupCurrent ∧ cmrDedupNames = dedupCurrent :=
 theorem class_table_ok : classTable.all (·.2) = true := by decide
 theorem cmr_table_ok : cmrTable.all (·.2) = true := by decide
 
+/-- dataset objects share no state: the item functions of the model take no argument for "what other objects did" -/
+theorem shared_state_table_ok : sharedStateTable.all (·.2) = true := by decide
+
 /-- the seed reaches `make_blobs(random_state=…)` and `simulate_sensitivity_maps(seed=…)`, which seeds
 for every seed that is not `None` -/
 theorem fake_table_ok : fakeTable.allTrue = true := by decide
